@@ -46,7 +46,8 @@ SPEC = dict(
         quick="well-posed integer matrices: entries {-2..2} for 1x1,1x2,1x3,2x2 (scales {1e-3,1,1e3} x float64/32); "
         "entries {-1,0,1,2} for 2x3 (3 scales float64, float32 at scale 1); entries {-1,0,1} for 3x3 (scale 1, both "
         "dtypes); D(seed) m<=n<=5 (3 scales, both dtypes); prefs None,(1..m)/sum,(m..1),(1e-2,1,..) and every one-hot "
-        "for Aligned-MTL; zero matrices of all shapes up to 5x5",
+        "for Aligned-MTL; zero matrices of all shapes up to 5x5; special families: negative weight sums, scales 1e+-13, preference magnitudes 1..1e-9, "
+        "100 000 / 300 000 columns, instance re-use after the zero matrix, one buffer re-filled in place",
         thorough="entries {-2..2} for all shapes up to 2x3 and {-1,0,1} for 3x3 (3 scales x both dtypes); 3x3 with "
         "entries {-1,0,1,2} (262 144, 208 074 well-posed) at scale 1 float64, all configurations; ALL 3x3 with entries "
         "{-2..2} (1 953 125, 1 647 744 well-posed) at scale 1 float64 for IMTL-G and ConFIG(None, increasing pref) only "
